@@ -105,9 +105,11 @@ func (i Status) String() string {
 
 // NewHTTPCache new a http cache
 func NewHTTPCache() *httpCache {
-	return &httpCache{
+	hc := &httpCache{
 		mu: &sync.RWMutex{},
 	}
+	verifPoint("entry.new", hc)
+	return hc
 }
 
 // NewHTTPStoreCache new a http store cache
